@@ -2,6 +2,7 @@ package main
 
 import (
 	"fmt"
+	"go/token"
 	"go/types"
 	"sort"
 	"strings"
@@ -22,6 +23,14 @@ func (st *State) enterLoopHeader(fr *Frame, from, target *ssa.BasicBlock, li *lo
 	st.enterBlock(fr, from, target)
 	st.bindLoopVars(fr, target)
 	evalInv := func(kind string, assert bool) {
+		// implicit invariant of compiler-generated index loops (range over slice/array): -1 <= i and (i == -1 or i < len)
+		if ai := st.rangeIndexInvariant(fr, target); ai != "" {
+			if assert {
+				st.oblige(kind, fmt.Sprintf("rangeindex@%s.loop%d", fnName, ord), st.e.curProps, ai, target.Instrs[0].Pos())
+			} else {
+				st.assume(ai)
+			}
+		}
 		if spec == nil {
 			return
 		}
@@ -54,6 +63,7 @@ func (st *State) enterLoopHeader(fr *Frame, from, target *ssa.BasicBlock, li *lo
 		pats = append(pats, spec.Modifies...)
 	}
 	allocs := false
+	st.loopHavoc = true
 	for _, p := range pats {
 		if p == allocName {
 			allocs = true
@@ -61,6 +71,7 @@ func (st *State) enterLoopHeader(fr *Frame, from, target *ssa.BasicBlock, li *lo
 		}
 		st.havoc(p)
 	}
+	st.loopHavoc = false
 	if allocs {
 		st.bumpAlloc()
 	}
@@ -294,6 +305,9 @@ func (e *Engine) callOutWrites(kind string, set map[string]bool) {
 	if kind == "StatsTracker.Add" {
 		set["G|metric"] = true
 	}
+	for _, w := range callOutExtraWrites[kind] {
+		set[w] = true
+	}
 	if c := e.ifaceSpecs[kind]; c != nil {
 		for _, m := range e.expandFrames(c.Modifies) {
 			set[strings.TrimPrefix(m, "new:")] = true
@@ -311,6 +325,9 @@ func (e *Engine) calleeWrites(f *ssa.Function) []string {
 	}
 	if _, ok := models[f.String()]; ok {
 		return nil
+	}
+	if c := e.contracts[name]; c != nil && !c.Inline && len(c.Modifies) == 0 && !c.Pure {
+		return []string{allocName, "H|*", "E|*", "M|*", "SM|*", "G|cnt|*", "G|arg|*", "G|res|*", "G|metric", "G|clock", "G|clk", "G|nclk", "G|rand", "G|delok", chanClosedName}
 	}
 	if c := e.contracts[name]; c != nil && !c.Inline {
 		out := []string{allocName}
@@ -350,10 +367,51 @@ func (e *Engine) modelWrites(f *ssa.Function, call *ssa.CallCommon, set map[stri
 	}
 	if len(f.String()) > 12 && f.String()[:12] == "(*sync.Map)." {
 		set["SM|*"] = true
-		set["G|cnt|*"] = true
-		set["G|arg|*"] = true
-		set["G|res|*"] = true
-		set["G|metric"] = true
 		set[allocName] = true
 	}
+}
+
+// rangeIndexInvariant recognises the SSA shape of `for i := range s`: phi #rangeindex; i+1 < L with L defined outside.
+func (st *State) rangeIndexInvariant(fr *Frame, h *ssa.BasicBlock) string {
+	var phi *ssa.Phi
+	for _, in := range h.Instrs {
+		if p, ok := in.(*ssa.Phi); ok && p.Comment == "rangeindex" {
+			phi = p
+		}
+	}
+	if phi == nil {
+		return ""
+	}
+	iff, ok := h.Instrs[len(h.Instrs)-1].(*ssa.If)
+	if !ok {
+		return ""
+	}
+	cmp, ok := iff.Cond.(*ssa.BinOp)
+	if !ok || cmp.Op != token.LSS {
+		return ""
+	}
+	inc, ok := cmp.X.(*ssa.BinOp)
+	if !ok || inc.Op != token.ADD || inc.X != phi {
+		return ""
+	}
+	var bound string
+	switch b := cmp.Y.(type) {
+	case *ssa.Const:
+		bound = st.constVal(b).C[0]
+	default:
+		v, ok := fr.env[cmp.Y]
+		if !ok || len(v.C) != 1 {
+			return ""
+		}
+		if in, isInstr := cmp.Y.(ssa.Instruction); isInstr && in.Block() != nil {
+			for _, lb := range st.e.loopsOf(fr.fn).body[h] {
+				if lb == in.Block() {
+					return "" // bound recomputed inside the loop
+				}
+			}
+		}
+		bound = v.C[0]
+	}
+	ri := fr.env[phi].C[0]
+	return fmt.Sprintf("(and (>= %s (- 1)) (or (= %s (- 1)) (< %s %s)) (<= %s 281474976710656))", ri, ri, ri, bound, bound)
 }
